@@ -30,6 +30,14 @@ pub(crate) fn fragment_popped(source: u16, data: &[u8]) {
     }
 }
 
+/// H5: the transport reader handed a link-layer message (link status request / response) to the application layer;
+/// recorded as a popped "fragment" without octets: [0xFF, 1] for a LINK_STATUS response, [0xFF, 0] for a request
+pub(crate) fn link_message_popped(source: u16, is_response: bool) {
+    if let Some(core) = super::kernel::current() {
+        core.fragment_popped(source, &[0xFF, is_response as u8]);
+    }
+}
+
 /// H3: is a simulated network installed for this thread?
 pub(crate) fn network_installed() -> bool {
     match super::kernel::current() {
